@@ -114,7 +114,7 @@ func (n *namer) markLong(c *Cmd, full string) bool {
 	return true
 }
 
-var longSuffix = []string{"", "", "x", "-y", "_z", "2", "Q", "-a-b"}
+var longSuffix = []string{"", "", "x", "-y", "_z", "n2", "Q", "-a-b"}
 
 func (n *namer) longName(id int) string {
 	s := fmt.Sprintf("o%03d", id) + n.r.Pick(longSuffix)
